@@ -747,7 +747,7 @@ package websocket
 //@ ghost after call:copy#1: c.g_acc := c.g_acc + ret
 
 //@ func newConn
-//@ tags C01 C03 C17 C20
+//@ tags C01 C03 C08 C17 C20
 //@ nilable br
 //@ requires conn != nil && writeBufferSize <= 1099511627776 && readBufferSize <= 1099511627776
 //@ requires imp(br != nil, br.g_size >= 125 && br.g_buf > 0 && br.g_buffered >= 0 && br.g_rd >= 0)
@@ -1285,7 +1285,7 @@ package websocket
 // join.go: JoinMessages reads message after message through NextReader; the
 // end of one message is not reported, the next call starts the next message.
 //@ func (*joinReader).Read
-//@ tags C03 C07
+//@ tags C03 C05 C07
 //@ results n err
 //@ requires r.c != nil && RState(r.c) && live(p)
 //@ bind m,nr,nerr after call:NextReader#1
@@ -1294,8 +1294,8 @@ package websocket
 //@ assert at call:NewReader#1[C03.join.term]: same(arg0, r.term)
 //@ assert at call:MultiReader#1[C03.join.term]: len(arg0) == 2 && arg0[0] == nr
 //@ assert at call:Read#1[C03.join]: same(arg1, p) && imp(old(r.r) != nil, arg0 == old(r.r))
-//@ assert at return#1[C03.join]: n == 0 && err == nerr && nerr != nil
-//@ assert at return#2[C03.join]: n == n0 && imp(e0 != io.EOF, err == e0) && imp(e0 == io.EOF, err == nil && r.r == nil)
+//@ assert at return#1[C03+C05.join]: n == 0 && err == nerr && nerr != nil
+//@ assert at return#2[C03+C05.join]: n == n0 && imp(e0 != io.EOF, err == e0) && imp(e0 == io.EOF, err == nil && r.r == nil)
 
 //@ func (*Conn).ReadJSON
 //@ tags C03 C05 C07
